@@ -144,7 +144,7 @@ Proof.
   - inv_ok H. destruct a0.
     destruct (put_pos_ok _ _ _ _ _ _ H0 Hext Hlen Hp) as (A1 & A2 & A3 & A4 & A5).
     destruct (IH _ _ _ _ H1 A1 Hlen A2) as (B1 & B2 & B3 & B4 & B5).
-    repeat split; auto; try congruence.
+    split; [exact B1|]. split; [exact B2|]. split; [congruence|]. split; [|congruence].
     intros b Hb. rewrite B4, A4; auto.
 Qed.
 
